@@ -816,12 +816,17 @@ func (a *Authority) init() error {
 	//
 	// This is currently only available in CA mode.
 	if size := len(a.intermediateX509Certs); size > 0 {
-		last := a.intermediateX509Certs[size-1]
 		constraintCerts := make([]*x509.Certificate, 0, size+1)
 		constraintCerts = append(constraintCerts, a.intermediateX509Certs...)
+		// The root is the one that issued an intermediate of the list; the
+		// order of the list depends on the order of the options of an
+		// embedded authority, do not rely on the last one being the top.
 		for _, root := range a.rootX509Certs {
-			if bytes.Equal(last.RawIssuer, root.RawSubject) && last.CheckSignatureFrom(root) == nil {
-				constraintCerts = append(constraintCerts, root)
+			for _, crt := range a.intermediateX509Certs {
+				if bytes.Equal(crt.RawIssuer, root.RawSubject) && crt.CheckSignatureFrom(root) == nil {
+					constraintCerts = append(constraintCerts, root)
+					break
+				}
 			}
 		}
 		a.constraintsEngine = constraints.New(constraintCerts...)
